@@ -95,7 +95,7 @@ def run(ctx):
                 if s in ("log_evidence", "log_evidence_error") and any(f.name == "log_w" for f in rb.result_cls.fields()):
                     ctx.prove("C16.cat", construct, loc, f"{s} is recomputed from the concatenated weights of the weighted class", disc=s, trivial=True)
                     continue
-                ok = v is not None and derives_from(v, [("s", lst, T.const(0)), el, lst], s)
+                ok = v is not None and derives_from(v, [("s", lst, T.const(0)), el, lst], s, allow_none=True)
                 ctx.decide(ok, "C16.cat", construct, loc, f"{s} carried from the pieces",
                            f"{s} is {T.show(v)[:80] if v else 'dropped'}: concatenating the pieces of a partition does not restore the original {s}", disc=s)
     ctx.floor("__getitem__ per class", n_get, 3)
